@@ -38,6 +38,7 @@ type op struct {
 	Only    string `json:"only"`  // write/delete: "" (index+data) | "index" | "data"
 	Key     uint32 `json:"key"`   // create / delchan
 	M       int    `json:"m"`
+	Pre     bool   `json:"pre"` // write: the writer is opened before the threads start (long-lived writer)
 }
 
 type tcase struct {
@@ -108,7 +109,55 @@ func openDB(fs xfs.FS, c tcase) (*cesium.DB, error) {
 	return cesium.Open(context.Background(), "db", opts...)
 }
 
+func writerCfg(c tcase, o op) (cesium.WriterConfig, []cesium.ChannelKey) {
+	keys := []cesium.ChannelKey{idxKey(o.G), dataKey(o.G)}
+	if o.Only == "index" {
+		keys = keys[:1]
+	} else if o.Only == "data" {
+		keys = keys[1:]
+	}
+	cfg := cesium.WriterConfig{
+		Channels: keys,
+		Start:    telem.TimeStamp(o.Start),
+	}
+	t, f := true, false
+	if o.Commits == "auto" {
+		cfg.EnableAutoCommit = &t
+	} else {
+		cfg.EnableAutoCommit = &f
+	}
+	if c.Persist == "always" {
+		cfg.AutoIndexPersistInterval = cesium.AlwaysIndexPersistOnAutoCommit
+	}
+	return cfg, keys
+}
+
+type preWriter struct {
+	w   *cesium.Writer
+	err error
+}
+
+// preopen opens the writers of the write ops flagged "pre" (not skipped) before any thread runs.
+func preopen(ctx context.Context, db *cesium.DB, c tcase, skip [][]bool) map[[2]int]*preWriter {
+	pre := map[[2]int]*preWriter{}
+	for ti, th := range c.Threads {
+		for oi, o := range th {
+			if o.Op != "write" || !o.Pre || (skip != nil && skip[ti][oi]) {
+				continue
+			}
+			cfg, _ := writerCfg(c, o)
+			w, err := db.OpenWriter(ctx, cfg)
+			pre[[2]int{ti, oi}] = &preWriter{w: w, err: err}
+		}
+	}
+	return pre
+}
+
 func doOp(ctx context.Context, db *cesium.DB, c tcase, o op) (err error) {
+	return doOpW(ctx, db, c, o, nil)
+}
+
+func doOpW(ctx context.Context, db *cesium.DB, c tcase, o op, pw *preWriter) (err error) {
 	defer func() {
 		if r := recover(); r != nil {
 			err = fmt.Errorf("panic: %v", r)
@@ -117,28 +166,18 @@ func doOp(ctx context.Context, db *cesium.DB, c tcase, o op) (err error) {
 	}()
 	switch o.Op {
 	case "write":
-		keys := []cesium.ChannelKey{idxKey(o.G), dataKey(o.G)}
-		if o.Only == "index" {
-			keys = keys[:1]
-		} else if o.Only == "data" {
-			keys = keys[1:]
-		}
-		cfg := cesium.WriterConfig{
-			Channels: keys,
-			Start:    telem.TimeStamp(o.Start),
-		}
-		t, f := true, false
-		if o.Commits == "auto" {
-			cfg.EnableAutoCommit = &t
+		cfg, keys := writerCfg(c, o)
+		var w *cesium.Writer
+		if pw != nil {
+			if pw.err != nil {
+				return pw.err
+			}
+			w = pw.w
 		} else {
-			cfg.EnableAutoCommit = &f
-		}
-		if c.Persist == "always" {
-			cfg.AutoIndexPersistInterval = cesium.AlwaysIndexPersistOnAutoCommit
-		}
-		w, err := db.OpenWriter(ctx, cfg)
-		if err != nil {
-			return err
+			w, err = db.OpenWriter(ctx, cfg)
+			if err != nil {
+				return err
+			}
 		}
 		chunks := o.Chunks
 		if chunks < 1 {
@@ -341,6 +380,7 @@ func runOnce(c tcase, concurrent bool, skip [][]bool, order []int) (obs runObs) 
 		obs.Setup = append(obs.Setup, classify(doOp(ctx, db, c, o)))
 	}
 	obs.Outcomes = make([][]string, len(c.Threads))
+	pre := preopen(ctx, db, c, skip)
 	var pmu sync.Mutex
 	runThread := func(ti int) {
 		defer func() {
@@ -355,7 +395,7 @@ func runOnce(c tcase, concurrent bool, skip [][]bool, order []int) (obs runObs) 
 				obs.Outcomes[ti] = append(obs.Outcomes[ti], "skipped")
 				continue
 			}
-			e := doOp(ctx, db, c, o)
+			e := doOpW(ctx, db, c, o, pre[[2]int{ti, oi}])
 			if e != nil {
 				pmu.Lock()
 				obs.Msgs = append(obs.Msgs, fmt.Sprintf("t%d.%d %s: %v", ti, oi, o.Op, e))
